@@ -149,8 +149,13 @@ impl<T: FileReader> RVParser<T> {
                 }
                 Err(x) => match x {
                     LexError::Expected(ex, got) => {
+                        // If the offending token is the end of the line, the
+                        // line is already over: do not skip the next one.
+                        let at_end_of_line = *got == TokenType::Newline;
                         parse_errors.push(ParseError::Expected(ex, got));
-                        self.recover_from_parse_error();
+                        if !at_end_of_line {
+                            self.recover_from_parse_error();
+                        }
                     }
                     LexError::IsNewline(_) => {}
                     LexError::UnexpectedToken(got) => {
@@ -279,7 +284,19 @@ impl AnnotatedLexer<'_> {
     }
 
     fn get_any(&mut self) -> Result<Token, LexError> {
-        let item = self.lexer.next().ok_or(LexError::UnexpectedEOF)?;
+        let Some(item) = self.lexer.next() else {
+            // End of file in the middle of a statement: report the
+            // incomplete statement instead of dropping it silently.
+            if self.raw_token != RawToken::default() {
+                return Err(LexError::UnexpectedToken(Box::new(Token::new(
+                    TokenType::Symbol(self.raw_token.raw_text()),
+                    self.raw_token.raw_text(),
+                    self.raw_token.range(),
+                    self.raw_token.file(),
+                ))));
+            }
+            return Err(LexError::UnexpectedEOF);
+        };
         if let Ok(ref item) = item {
             if self.raw_token == RawToken::default() {
                 self.raw_token = item.clone().into();
@@ -483,7 +500,7 @@ impl TryFrom<&mut Peekable<Lexer>> for ParserNode {
                             let rd = lex.get_reg()?;
                             let next = lex.get_any()?;
                             return if let Ok(imm) = next.as_imm() {
-                                if let Ok(()) = lex.peek_any()?.as_lparen() {
+                                if lex.peek_any().is_ok_and(|t| t.as_lparen().is_ok()) {
                                     lex.get_any()?;
                                     let rs1 = lex.get_reg()?;
                                     lex.expect_rparen()?;
@@ -545,7 +562,7 @@ impl TryFrom<&mut Peekable<Lexer>> for ParserNode {
                             let next = lex.get_any()?;
 
                             return if let Ok(imm) = next.as_imm() {
-                                if let Ok(()) = lex.peek_any()?.as_lparen() {
+                                if lex.peek_any().is_ok_and(|t| t.as_lparen().is_ok()) {
                                     lex.get_any()?;
                                     let rs1 = lex.get_reg()?;
                                     lex.expect_rparen()?;
@@ -556,7 +573,9 @@ impl TryFrom<&mut Peekable<Lexer>> for ParserNode {
                                         imm,
                                         lex.raw_token,
                                     ))
-                                } else if let Ok(tmp) = lex.peek_any()?.as_reg() {
+                                } else if let Some(tmp) =
+                                    lex.peek_any().ok().and_then(|t| t.as_reg().ok())
+                                {
                                     lex.get_any()?;
                                     Err(LexError::NeedTwoNodes(
                                         Box::new(ParserNode::new_iarith(
@@ -1035,7 +1054,10 @@ impl TryFrom<&mut Peekable<Lexer>> for ParserNode {
                             // not found
                             let mut values = Vec::new();
                             loop {
-                                let next = lex.peek_any()?;
+                                // The list also ends at the end of the file
+                                let Ok(next) = lex.peek_any() else {
+                                    break;
+                                };
                                 if let TokenType::Newline = next.token_type() {
                                     // consume newline
                                     lex.get_any()?;
